@@ -6,6 +6,7 @@ import (
 	"encoding/json"
 	"errors"
 	"fmt"
+	"math"
 	"reflect"
 	"strings"
 	"time"
@@ -220,6 +221,14 @@ type hist struct {
 	stop  bool
 
 	memoKey string
+
+	seenM  []methodCall // method-level calls of this history that can be repeated later
+	repeat *methodCall  // set while one of them is being repeated
+}
+
+type methodCall struct {
+	ty, entry int
+	content   []byte
 }
 
 // intended is the configuration as the harness set it (every switch a parser's outcome may
@@ -526,7 +535,47 @@ func plainObject(t *core.Tape, v interface{}) []byte {
 		ms = append(ms, member{f.Name, string(b)})
 	}
 	if len(ms) == 0 {
-		return nil
+		// no exported fields: what the value's own accessors say (Year(), Month(), Day() ...) is
+		// what a peer would write down; a random one to three of them
+		var all []member
+		for i := 0; i < rv.NumMethod(); i++ {
+			m := rv.Type().Method(i)
+			mt := m.Type
+			switch m.Name {
+			case "String", "GoString", "Error", "Format", "IsZero":
+				continue
+			}
+			if mt.NumIn() != 1 || mt.NumOut() != 1 {
+				continue
+			}
+			switch mt.Out(0).Kind() {
+			case reflect.Int, reflect.Int8, reflect.Int16, reflect.Int32, reflect.Int64, reflect.Uint, reflect.Uint8, reflect.Uint16, reflect.Uint32, reflect.Uint64:
+			default:
+				continue
+			}
+			var out []reflect.Value
+			func() {
+				defer func() { recover() }()
+				out = rv.Method(i).Call(nil)
+			}()
+			if len(out) != 1 {
+				continue
+			}
+			n := out[0].Convert(reflect.TypeOf(int64(0)))
+			if out[0].Kind() >= reflect.Uint && out[0].Kind() <= reflect.Uint64 {
+				n = reflect.ValueOf(int64(out[0].Uint()))
+			}
+			all = append(all, member{m.Name, fmt.Sprintf("%d", n.Int())})
+		}
+		if len(all) == 0 {
+			return nil
+		}
+		k := 1 + t.Choose(3)
+		for j := 0; j < k && len(all) > 0; j++ {
+			i := t.Choose(len(all))
+			ms = append(ms, all[i])
+			all = append(all[:i], all[i+1:]...)
+		}
 	}
 	lower := t.Bool(1, 2)
 	if t.Bool(1, 2) {
@@ -605,6 +654,11 @@ func (h *hist) opCall() {
 	ents := entriesOf[ty]
 	entry := ents[t.Choose(len(ents))]
 	rec := h.pickRecord(ty)
+	if h.repeat != nil {
+		// the same entry point on the same content as an earlier call of this history
+		ty, entry = h.repeat.ty, h.repeat.entry
+		rec = Record{ty, RText, append([]byte(nil), h.repeat.content...), "an earlier call's content again"}
+	}
 	if h.clean {
 		// a clean call uses the entry that matches the record kind
 		switch {
@@ -618,7 +672,7 @@ func (h *hist) opCall() {
 	}
 	// entry points an edited tree may have grown: Scan or UnmarshalBinary on a type that has
 	// none today (found at run time; nothing is drawn from the tape when there is none)
-	if ty != TDate && !h.clean {
+	if ty != TDate && !h.clean && h.repeat == nil {
 		_, hasScan := h.ptr(ty).(sqlScanner)
 		_, hasBin := h.ptr(ty).(encoding.BinaryUnmarshaler)
 		if (hasScan || hasBin) && t.Bool(1, 3) {
@@ -632,14 +686,17 @@ func (h *hist) opCall() {
 	}
 	fault := h.pickFault()
 	input := h.readRecord(ty, fault, rec)
+	if h.repeat != nil {
+		fault, input = FIntact, append([]byte(nil), h.repeat.content...)
+	}
 	stub := 0
-	if !h.clean && (entry == EUnmarshalText || entry == EUnmarshalJSON) && t.Bool(1, 6) {
+	if h.repeat == nil && !h.clean && (entry == EUnmarshalText || entry == EUnmarshalJSON) && t.Bool(1, 6) {
 		stub = 1 + t.Choose(4) // 1 = (garbage, error), 2 = (value, nil), 3 = (a value no default parser would produce, nil), 4 = the seam panics
 	}
 	var scanSrc interface{}
 	scanKind := 0
 	if entry == EScan {
-		scanKind = t.Choose(14)
+		scanKind = t.Choose(17)
 		if h.clean {
 			scanKind = t.Choose(2)
 		}
@@ -648,7 +705,7 @@ func (h *hist) opCall() {
 		}
 	}
 	plainObj := false
-	if entry == EJSONStd && !h.clean && t.Bool(1, 4) {
+	if entry == EJSONStd && !h.clean && h.repeat == nil && t.Bool(1, 4) {
 		// what a peer sends that knows the type's fields and nothing of its text form: the value
 		// as a plain JSON object, with one member of the wrong JSON type half of the time
 		if doc := plainObject(t, genValue(t, ty)); doc != nil {
@@ -656,7 +713,7 @@ func (h *hist) opCall() {
 			h.res.Faults.Inc("json_plain_object_document")
 		}
 	}
-	if entry == EJSONStd && !plainObj {
+	if entry == EJSONStd && !plainObj && h.repeat == nil {
 		// encoding/json hands a TextUnmarshaler the unquoted string
 		if ty != TSize || rec.Kind != RJSON {
 			q, _ := json.Marshal(string(input))
@@ -700,6 +757,15 @@ func (h *hist) opCall() {
 		case 12:
 			var pd *date.Date
 			scanSrc = pd
+		case 14:
+			// the other things a driver may hand over: a float, a bool, integers at the edges
+			fs := [...]float64{-1, 0.5, 1e30, 3, 1994, math.NaN(), math.Inf(1), 4e3, 0, -0.0, 1e-9, 18446744073709551616}
+			scanSrc = fs[t.Choose(len(fs))]
+		case 15:
+			scanSrc = t.Bool(1, 2)
+		case 16:
+			is := [...]int64{-1, 0, 1, 3999, 4000, 1 << 31, math.MaxInt64, math.MinInt64}
+			scanSrc = is[t.Choose(len(is))]
 		case 13:
 			// what a database hands over for "infinity", a BC date or a corrupt row: years at
 			// and beyond the edges of what the text form can express, in UTC and in a zone
@@ -783,6 +849,9 @@ func (h *hist) opCall() {
 	h.logf("call %s record=%q (%s) fault=%s stub=%d input=%q scan=%d -> err=%q receiver=%s", name, rec.Bytes, rec.Desc, faultNames[fault], stub, clip(preIn), scanKind, errText, showVal(h.cur(ty)))
 	h.res.Extra.Inc("calls")
 
+	if h.repeat == nil && stub == 0 && !panicked && (entry == EUnmarshalText || entry == EUnmarshalJSON || entry == EUnmarshalBinary || entry == EJSONStd) && len(h.seenM) < 24 {
+		h.seenM = append(h.seenM, methodCall{ty, entry, append([]byte(nil), preIn...)})
+	}
 	// H for the method-level entries: the same content under the same configuration gives the
 	// same outcome (error text, or decoded value) every time in a history
 	if stub == 0 && !panicked && (entry == EUnmarshalText || entry == EUnmarshalJSON || entry == EUnmarshalBinary) {
@@ -1224,6 +1293,14 @@ func (h *hist) stable(pe parserEntry, rule int, in *inputs, preIn []byte, out [4
 // recheck repeats an earlier function-level parse of this history (same entry, rule, content,
 // and the same intended configuration): whatever happened in between must not show (H).
 func (h *hist) recheck() {
+	if len(h.seenM) > 0 && h.repeat == nil && h.t.Bool(1, 2) {
+		mc := h.seenM[h.t.Choose(len(h.seenM))]
+		h.repeat = &mc
+		h.res.Probes.Inc("repeat_earlier_method_call")
+		h.opCall()
+		h.repeat = nil
+		return
+	}
 	var cands []int
 	cur := configKey()
 	for i, sn := range h.seenP {
@@ -1297,6 +1374,11 @@ func (h *hist) opScribble() {
 		}
 	}
 	h.checkModels("after scribble")
+	// an earlier content again, accepted or refused: whatever the library remembers of that call
+	// (a cached result, a cached error) must not point into the buffer that has just been reused
+	if !h.stop && t.Bool(1, 2) {
+		h.recheck()
+	}
 	// the buffer now holds another record: parse that record's content again (a library that
 	// kept a reference to the old buffer would answer from it)
 	for _, sr := range reparse {
